@@ -256,8 +256,9 @@ class CircuitTemplate(AbstractBaseTemplate):
 
         # either create new instance with updates or store updates on current template instance
         if not in_place:
+            # (the populations and their connections belong to the new template as well)
             return self.__class__(name=name, path=path, description=description, circuits=circuits, nodes=nodes,
-                                  edges=edges)
+                                  edges=edges, populations=dict(self.populations), connections=list(self.connections))
         self.name = name
         self.path = path
         self.__doc__ = description
